@@ -46,6 +46,25 @@ def pure_cases(ctx, n):
         cases.append(Case({"kind": "pure", "base": base, "args": args},
                           ["exp.safepath %s %s" % (hx(base), ",".join(hx(a) for a in args))],
                           [hx(got)], mon, any(ch not in "abzAZ09-_.()" for a in args for ch in a)))
+    # long combination strings (many parameters with descriptive labels): two
+    # names made only of characters the sanitiser keeps, differing in one
+    # position anywhere, must stay distinct whatever their length
+    safe = "abcxyzABC0189-_.()"
+    for _ in range(max(20, n // 60)):
+        ln = ctx.rng.choice([40, 100, 127, 128, 129, 160, 255, 256, 300, 600])
+        a = "".join(ctx.rng.choice(safe) for _ in range(ln))
+        pos = ctx.rng.choice([0, ln // 2, ln - 1, ctx.rng.randrange(ln)])
+        b = a[:pos] + ("q" if a[pos] != "q" else "r") + a[pos + 1:]
+        base = "/out/study"
+        ga, gb = make_safe_path(base, "step", a), make_safe_path(base, "step", b)
+        mon = []
+        if ga == gb:
+            mon.append(("distinct-workspaces", "hashws=False cause=long-name: two safe names of length %d "
+                        "differing at position %d share the directory %s" % (ln, pos, ga[:60])))
+        cases.append(Case({"kind": "pure-long", "base": base, "args": ["step", a], "other": b},
+                          ["exp.safepath %s %s" % (hx(base), ",".join(hx(x) for x in ("step", a))),
+                           "exp.safepath %s %s" % (hx(base), ",".join(hx(x) for x in ("step", b)))],
+                          [hx(ga), hx(gb)], mon, True))
     return cases
 
 
